@@ -1,0 +1,24 @@
+//go:build verif
+
+package expand
+
+import "mvdan.cc/sh/v3/internal"
+
+// Thin wrappers for the C33 verification harness: the sparse indexed array
+// helpers live in an internal package and in unexported methods.
+
+func VerifSetIndexedElem(list []string, indexes []int, k int, val string) ([]string, []int) {
+	return internal.SetIndexedElem(list, indexes, k, val)
+}
+
+func VerifDeleteIndexedElem(list []string, indexes []int, k int) ([]string, []int) {
+	return internal.DeleteIndexedElem(list, indexes, k)
+}
+
+func VerifCanonicalIndexes(indexes []int) []int { return internal.CanonicalIndexes(indexes) }
+
+func VerifIndexedMax(list []string, indexes []int) int { return internal.IndexedMax(list, indexes) }
+
+func (v Variable) VerifIndexedVal(i int) (string, bool) { return v.indexedVal(i) }
+
+func (v Variable) VerifIndexedKeys() []string { return v.indexedKeys() }
